@@ -11,7 +11,7 @@ import (
 func init() {
 	Register(&PropDef{
 		ID: "C03", QuickRuns: 2400, Level: "exploration",
-		Rule: "one run = seeded history of establishment / modification (create, update, remove of PDRs, FARs, QERs) / deletion / unknown-session and no-association requests over 1-4 sessions and 1-2 associations on the BESS datapath, optionally with kill -9 of the agent at a drawn scheduler step and restart against the populated datapath; after every accepted response the simulated BESS modules are compared with the reference image (classification of boundary-value packets around every live rule and every installed entry; exact FAR / QER entry sets). Non-trivial = at least one accepted session operation and at least one of {injected fault, statement-level pre-emption, >20 task switches}; distinct = different event skeleton (sequence of operation kinds, outcomes and fault kinds). Also: Association Setup repeated on a live association; a modification refused half-way followed by an accepted Update FAR restating the FAR.",
+		Rule: "one run = seeded history of establishment / modification (create, update, remove of PDRs, FARs, QERs) / deletion / unknown-session and no-association requests over 1-4 sessions and 1-2 associations on the BESS datapath, optionally with kill -9 of the agent at a drawn scheduler step and restart against the populated datapath; after every accepted response the simulated BESS modules are compared with the reference image (classification of boundary-value packets around every live rule and every installed entry; exact FAR / QER entry sets). Non-trivial = at least one accepted session operation and at least one of {injected fault, statement-level pre-emption, >20 task switches}; distinct = different event skeleton (sequence of operation kinds, outcomes and fault kinds). Also: Association Setup repeated on a live association; a modification refused half-way followed by an accepted Update FAR restating the FAR; an update-only modification refused while it is read (Update PDR with another filter + unreadable Update FAR), then the deletion of the session.",
 		Assume: []string{"BESS module semantics as modelled (WildcardMatch upsert keyed by masked values+masks, highest priority wins; ExactMatch / Qos keyed by fields; delete of an absent key is an error reply)",
 			"valid generators stay inside the supported IPv4 envelope of DESIGN.md section 5.8", "datapath write failures and RPC latency beyond the join timeout are outside this property's quantifier"},
 		Real: CommonReal, Simulated: CommonSim,
@@ -245,6 +245,40 @@ func runHistory(r *Run, g *Gen, hc histCfg) {
 					r.Accepted++
 					r.Probe("far-restated-after-half-way-refusal")
 					hc.checkImage(fmt.Sprintf("after an Update FAR that restated FAR 2 of cp=%d as it was before a modification that was refused half-way (its Update FAR had been written)", s.CPSEID), "mod:"+m2.Tag)
+				}
+				continue
+			}
+			if !armKill && r.Ch.Choose(10, "refused-update-only") == 1 {
+				// An update-only modification that is refused while it is being read (its
+				// Update PDR changes the filter, its Update FAR has no forwarding
+				// parameters): nothing is written and the session must stay as it was -
+				// the deletion that follows has to take every entry out again.
+				up := s.PDRs[r.Ch.Choose(len(s.PDRs), "ruo-pdr")].clone()
+				if up.TEIDChoose {
+					up.TEIDChoose, up.TEID, up.TEIDAddr = false, up.GotTEID, ip4(N3Addr)
+				}
+				if up.UEIPAlloc {
+					up.UEIPAlloc, up.UEIP = false, up.GotUEIP
+				}
+				up.SDF = g.Flow(false)
+				m1 := &ModSpec{UpdatePDR: []*PDRSpec{up}, UpdateFAR: []*FARSpec{{ID: 2, Action: ActFORW, DstIface: IfAccess}}, Tag: "uP:filter+uF:unreadable"}
+				res1 := s.Peer.Modify(s, m1)
+				r.Op("modify cp=%d up=%d %s -> accepted=%v cause=%d", s.CPSEID, s.UPSEID, m1.Describe(), res1.Accepted, res1.Cause)
+				if res1.Rx == nil || res1.Accepted || !r.AgentAlive() {
+					r.Inconclusive++
+					return
+				}
+				r.Probe("update-only-modification-refused-while-read")
+				hc.checkImage(fmt.Sprintf("after an update-only modification of cp=%d that was refused", s.CPSEID), "mod:refused-update-only")
+				res2 := s.Peer.Delete(s)
+				r.Op("delete cp=%d up=%d -> accepted=%v", s.CPSEID, s.UPSEID, res2.Accepted)
+				r.Skel(fmt.Sprintf("mod:refused-update-only-then-del:%v", res2.Accepted))
+				if res2.Accepted {
+					r.Accepted++
+					hc.checkImage(fmt.Sprintf("after deletion of cp=%d, which followed an update-only modification that was refused", s.CPSEID), "del:after-refused-update-only")
+				} else if res2.Rx != nil && r.AgentAlive() {
+					r.Probe("valid-deletion-rejected")
+					r.RejectedValid(s.UPSEID)
 				}
 				continue
 			}
